@@ -23,6 +23,7 @@ def run(ctx):
     R3 = ctx.rule('C06.R3', 'every session_api::load overrider returns data only after the deadline-vs-time() test; expired records are removed')
     R4 = ctx.rule('C06.R4', 'session_memory_storage state only under mutex_ (writes exclusive)')
     R5 = ctx.rule('C06.R5', 'session (de)serialiser: header and payload reads stay inside the string; limits agree with the bit-field widths')
+    R10 = ctx.rule('C06.R10', 'session (de)serialiser agree: every entry is written as header(key length, exposed flag, value length) + key + value, for all entries in order; the reader takes the key from the 4 bytes after the header start for key_size bytes, the value right behind it for data_size bytes, advances by exactly header + key + value, and stores value and flag under that key')
     R6 = ctx.rule('C06.R6', 'session_dual dispatches on the cookie type and clears the server record when switching to client storage')
     R7 = ctx.rule('C06.R7', 'in-memory storage: the expiry index entry of a record is keyed by the deadline stored in the record')
 
@@ -227,6 +228,199 @@ def run(ctx):
     ctx.check(lim.get('ks') is not None and bits.get('key_size') and lim['ks'] <= 2 ** bits['key_size'], R5, 'packed:key-limit-fits-bitfield', 'key size limit %s does not fit %s bits' % (lim.get('ks'), bits.get('key_size')), pc[0].where)
     ctx.check(lim.get('ds') is not None and bits.get('data_size') and lim['ds'] <= 2 ** bits['data_size'], R5, 'packed:data-limit-fits-bitfield', 'data size limit %s does not fit %s bits' % (lim.get('ds'), bits.get('data_size')), pc[0].where)
     ctx.check(sum(b or 0 for b in bits.values()) == 32, R5, 'packed:header-is-32-bits', 'header layout is not 32 bits', pc[0].where)
+
+    # ---------------- R10 writer / reader agreement of the session blob
+    from vlib import lin as _lin10
+    from vlib.lin import Lin as _L10
+    svd = P.fn('cppcms::session_interface::save_data')
+    outp10 = q.param_by_index(svd, 1)
+    datap10 = q.param_by_index(svd, 0)
+    lp = [L for L in q.loops(svd)]
+    okw = len(lp) == 1
+    hdr_ctor, apps = None, []
+    if okw:
+        L = lp[0]
+        nL = svd.N(L)
+        full = nL['k'] == 'CXXForRangeStmt' or (q.mentions_field_call(svd, nL.get('init', L) if nL.get('init', -1) not in (None, -1) else L, '', 'begin') or any(q.short_of(svd.bcallee(j) or '') == 'begin' for j in svd.calls(svd.parent.get(L, L)))) 
+        esc = [j for j in svd.walk(nL['body']) if svd.N(j)['k'] in ('BreakStmt', 'ContinueStmt', 'ReturnStmt', 'GotoStmt')]
+        itv = None
+        cl_ = nL.get('cond', -1)
+        if cl_ not in (None, -1):
+            itv = [r for r in svd.subtree_refs(cl_) if r.startswith('v:')]
+            okw = okw and any(q.short_of(svd.bcallee(j) or '') == 'end' and svd.obj(j) is not None and svd.ref_of(svd.obj(j)) == datap10 for j in svd.calls(cl_))
+            okw = okw and any(q.short_of(svd.bcallee(j) or '') == 'begin' and svd.obj(j) is not None and svd.ref_of(svd.obj(j)) == datap10 for j in svd.calls()) and len(itv) == 1
+        okw = okw and not esc
+        if cl_ not in (None, -1):
+            cn10 = svd.N(svd.strip(cl_))
+            okw = okw and ((cn10['k'] == 'CXXOperatorCallExpr' and cn10.get('op') == '!=') or (cn10['k'] == 'BinaryOperator' and cn10.get('op') in ('!=', '<')) or
+                           (cn10['k'] == 'UnaryOperator' and cn10.get('op') == '!' and svd.N(svd.strip(cn10['ch'][0])).get('op') == '=='))
+        clr = [i for i in svd.calls() if q.short_of(svd.bcallee(i) or '') == 'clear' and svd.obj(i) is not None and svd.ref_of(svd.obj(i)) == outp10]
+        okw = okw and len(clr) == 1 and q.before(svd, clr[0], L) and not svd.contains(L, clr[0])
+    ctx.check(okw, R10, 'save_data:starts-empty-and-visits-every-entry', 'the blob is not started empty, or the loop does not visit every entry of the map exactly once', svd.where)
+    if lp:
+        L = lp[0]
+        body = svd.N(L)['body']
+        hc = [i for i in svd.calls(body) if svd.N(i)['k'] in ('CXXConstructExpr', 'CXXTemporaryObjectExpr') and (svd.callee(i) or '').endswith('packed::packed') and len(svd.args(i)) == 3]
+        okh = len(hc) == 1
+        if okh:
+            a = svd.args(hc[0])
+
+            def part(node, what):
+                refs = [model.strip_targs(r).rsplit('::', 1)[-1] for r in svd.subtree_refs(node)]
+                calls_ = [q.short_of(svd.bcallee(j) or '') for j in svd.calls(node)]
+                if what == 'ks':
+                    return 'first' in refs and 'value' not in refs and ('size' in calls_ or 'length' in calls_)
+                if what == 'ds':
+                    return 'second' in refs and 'value' in refs and ('size' in calls_ or 'length' in calls_)
+                return 'second' in refs and 'exposed' in refs and 'value' not in refs
+            okh = part(a[0], 'ks') and part(a[1], 'exp') and part(a[2], 'ds')
+        ctx.check(okh, R10, 'save_data:header(key-size,exposed,value-size)', 'the header is not built from the key length, the exposed flag and the value length of the entry being written', svd.loc(hc[0]) if hc else svd.where)
+        aps = [i for i in svd.calls(body) if q.short_of(svd.bcallee(i) or '') == 'append' and svd.obj(i) is not None and svd.ref_of(svd.obj(i)) == outp10]
+        oka = len(aps) == 3 and q.before(svd, aps[0], aps[1]) and q.before(svd, aps[1], aps[2])
+        if oka:
+            S10 = q.symb_with_locals(svd)
+            a0 = svd.args(aps[0])
+            d0 = S10.lin(a0[1]) - S10.lin(a0[0])
+            hdrv = [d['ref'] for i in svd.all_nodes() if svd.N(i)['k'] == 'DeclStmt' for d in svd.N(i)['decls'] if d.get('init') is not None and hc and hc[0] in set(svd.walk(d['init']))]
+            oka = d0.is_const() and d0.c == 4 and bool(hdrv) and hdrv[0] in q.deep_refs(svd, a0[0])
+
+            def rng(i, fld):
+                aa = svd.args(i)
+                def side(node, m):
+                    refs = [model.strip_targs(r).rsplit('::', 1)[-1] for r in svd.subtree_refs(node)]
+                    calls_ = [q.short_of(svd.bcallee(j) or '') for j in svd.calls(node)]
+                    want_val = fld == 'value'
+                    return m in calls_ and (('value' in refs) == want_val) and (('first' in refs) != want_val or want_val)
+                return len(aa) == 2 and side(aa[0], 'begin') and side(aa[1], 'end')
+            oka = oka and rng(aps[1], 'first') and rng(aps[2], 'value')
+        ctx.check(oka, R10, 'save_data:appends-header-key-value-in-order', 'an entry is not written as its 4 header bytes, then the whole key, then the whole value', svd.loc(aps[0]) if aps else svd.where)
+    for f in pc:
+        ws = {}
+        S13 = _lin10.Symb(f)
+        for fld, pi in (('key_size', 0), ('data_size', 2)):
+            # a length that does not fit its bit field is refused, not truncated
+            w = [x for x in q.field_writes(f, 'packed::' + fld)]
+            lim_ = 2 ** (bits.get(fld) or 0)
+            PV_ = _L10.atom(f.params[pi]['ref'])
+
+            def fits(atom, pol, f=f, S13=S13, PV_=PV_, lim_=lim_):
+                n_ = f.N(atom)
+                if n_['k'] != 'BinaryOperator' or n_.get('op') not in ('<', '<=', '>', '>='):
+                    return False
+                cons = S13.rel(atom, pol)
+                return bool(cons) and _lin10.implies(cons, _lin10.ge(_L10.const(lim_ - 1) - PV_))
+            g_f = f.gate_edges(fits)
+            ctx.check(len(w) == 1 and bool(g_f) and f.only_through(w[0], g_f), R10, 'packed(ks,exp,ds):%s-refused-if-it-does-not-fit' % fld,
+                      'a length of %d or more is stored into the %s-bit field (silently truncated: the blob can not be read back)' % (lim_, bits.get(fld)), f.where)
+        for fld, pi in (('key_size', 0), ('exposed', 1), ('data_size', 2)):
+            w = [x for x in q.field_writes(f, 'packed::' + fld)]
+            okf = len(w) == 1 and f.params[pi]['ref'] in f.subtree_refs(f.N(w[0])['ch'][1]) and not [pp_ for k2, pp_ in enumerate(f.params) if k2 != pi and pp_['ref'] in f.subtree_refs(f.N(w[0])['ch'][1])]
+            if okf and fld == 'exposed':
+                vals = sorted(set(f.const_value(j) for j in f.walk(f.N(w[0])['ch'][1]) if f.N(j)['k'] in ('IntegerLiteral', 'CXXBoolLiteralExpr') and f.const_value(j) is not None))
+                cond_ = [j for j in f.walk(f.N(w[0])['ch'][1]) if f.N(j)['k'] == 'ConditionalOperator']
+                if cond_:
+                    cn_ = f.N(cond_[0])
+                    okf = f.const_value(cn_['ch'][1]) == 1 and f.const_value(cn_['ch'][2]) == 0
+            if okf:
+                reach = f.reachable_blocks(cut_blocks=q.blocks_of(f, w) | f.abnormal_blocks())
+                okf = f.exit not in reach
+            ctx.check(okf, R10, 'packed(ks,exp,ds):%s-from-its-argument' % fld, 'header field %s is not set from the corresponding constructor argument on every normal path' % fld, f.where)
+    # reader
+    LB = [L for L in q.loops(ldd)]
+    okr = len(LB) == 1
+    if okr:
+        body = ldd.N(LB[0])['body']
+        curv = [r for r in ldd.subtree_refs(ldd.N(LB[0])['cond']) if r.startswith('v:')]
+        clr = [i for i in ldd.calls() if q.short_of(ldd.bcallee(i) or '') == 'clear' and ldd.obj(i) is not None and ldd.ref_of(ldd.obj(i)) == q.param_by_index(ldd, 0)]
+        okr = len(curv) >= 1 and len(clr) == 1 and q.before(ldd, clr[0], LB[0])
+    if okr:
+        cn11 = ldd.N(ldd.strip(ldd.N(LB[0])['cond']))
+        endv = [r for r in curv if not q.writes_to(ldd, r, body)]
+        okr = cn11['k'] == 'BinaryOperator' and cn11.get('op') in ('<', '!=') and ldd.ref_of(cn11['ch'][0]) in curv and ldd.ref_of(cn11['ch'][1]) in endv and ldd.ref_of(cn11['ch'][0]) not in endv
+        # the end is begin + size of the whole blob
+        if okr:
+            S12 = q.symb_with_locals(ldd)
+            e_ = S12.lin(cn11['ch'][1])
+            edef = set(v_ for (d_, v_) in ldd.defs_of_var(ldd.ref_of(cn11['ch'][1])) if v_ is not None)
+            if len(edef) == 1 and not [1 for (d_, v_) in ldd.defs_of_var(ldd.ref_of(cn11['ch'][1])) if v_ is None]:
+                e_ = S12.lin(next(iter(edef)))
+            cdef = sorted(set(v_ for (d_, v_) in ldd.defs_of_var(ldd.ref_of(cn11['ch'][0])) if ldd.N(d_)['k'] == 'DeclStmt' and v_ is not None))
+            starts = len(cdef) == 1 and any(q.short_of(ldd.bcallee(j) or '') in ('data', 'c_str') for j in ldd.calls(cdef[0]))
+            d12 = e_ - _L10.atom(ldd.ref_of(cn11['ch'][0]))
+            okr = starts and ((len(d12.t) == 1 and d12.c == 0 and list(d12.t)[0].endswith('.size()') and list(d12.t.values()) == [1]) or
+                              (any(a_.endswith('.size()') for a_ in e_.atoms()) and any(a_.endswith(('.data()', '.c_str()')) for a_ in e_.atoms())))
+    ctx.check(okr, R10, 'load_data:starts-empty-one-loop', 'the map is not cleared first / no single read loop', ldd.where)
+    if okr:
+        S11 = q.symb_with_locals(ldd)
+        # the cursor is the loop variable that is advanced in the body
+        cvs = [r for r in curv if q.writes_to(ldd, r, body)]
+        curr = cvs[0] if cvs else None
+        KS = [a_ for a_ in set(x for i in ldd.all_nodes() for x in S11.lin(i).atoms()) if a_.endswith('packed::key_size')] if False else None
+
+        def adv_at(node):
+            tot = _L10.const(0)
+            for w in q.writes_to(ldd, curr, body):
+                n_ = ldd.N(w)
+                if node is not None and q.before(ldd, w, node):
+                    pass
+                elif node is not None and (q.before(ldd, node, w) or w == node):
+                    continue
+                elif node is not None:
+                    return None
+                if n_['k'] == 'CompoundAssignOperator' and n_.get('op') == '+=':
+                    tot = tot + S11.lin(n_['ch'][1])
+                else:
+                    return None
+            return tot
+        hp = [i for i in ldd.calls(body) if ldd.N(i)['k'] in ('CXXConstructExpr', 'CXXTemporaryObjectExpr') and (ldd.callee(i) or '').endswith('packed::packed') and len(ldd.args(i)) == 2]
+        okp = len(hp) == 1 and curr is not None
+        pv = None
+        if okp:
+            pv = [d['ref'] for i in ldd.all_nodes() if ldd.N(i)['k'] == 'DeclStmt' for d in ldd.N(i)['decls'] if d.get('init') is not None and hp[0] in set(ldd.walk(d['init']))]
+            a = ldd.args(hp[0])
+            at = adv_at(hp[0])
+            okp = bool(pv) and ldd.ref_of(a[0]) == curr and at is not None and at.is_const() and at.c == 0
+        ctx.check(okp, R10, 'load_data:header-read-at-the-cursor', 'the entry header is not read at the position where the previous entry ended', ldd.loc(hp[0]) if hp else ldd.where)
+        if okp:
+            pvn = pv[0]
+            KSZ = [x for x in [pvn + '.f:' + f_ for f_ in ()]]
+            strs2 = [i for i in strs if ldd.contains(body, i)]
+            ksa = dsa = None
+            for i in ldd.all_nodes():
+                n_ = ldd.N(i)
+                if n_['k'] == 'MemberExpr' and model.strip_targs(n_.get('ref') or '').endswith('packed::key_size') and ldd.ref_of(n_['ch'][0]) == pvn:
+                    ksa = S11.lin(i)
+                if n_['k'] == 'MemberExpr' and model.strip_targs(n_.get('ref') or '').endswith('packed::data_size') and ldd.ref_of(n_['ch'][0]) == pvn:
+                    dsa = S11.lin(i)
+            CUR = _L10.atom(curr)
+            shapes = []
+            for i in strs2:
+                a = ldd.args(i)
+                b_, e_ = S11.lin(a[0]) - CUR, S11.lin(a[1]) - S11.lin(a[0])
+                at = adv_at(i)
+                shapes.append((i, None if at is None else (b_ + at), e_))
+            zero = _L10.const(0).key()
+            okk = len(shapes) == 2 and ksa is not None and dsa is not None and all(sh[1] is not None for sh in shapes)
+            if okk:
+                (ki, kb, kl), (vi, vb, vl) = shapes
+                okk = (kb - _L10.const(4)).key() == zero and (kl - ksa).key() == zero and (vb - _L10.const(4) - ksa).key() == zero and (vl - dsa).key() == zero
+                tot = adv_at(None)
+                okk = okk and tot is not None and (tot - _L10.const(4) - ksa - dsa).key() == zero
+            ctx.check(okk, R10, 'load_data:key-at-4:value-behind-the-key:advance-by-4+key+value', 'key / value are not taken from [4, 4+key_size) and [4+key_size, 4+key_size+data_size) of the entry, or the cursor does not end behind the value', ldd.loc(strs2[0]) if strs2 else ldd.where)
+            # stored under the key, flag and value from this entry
+            kvar = [d['ref'] for i in ldd.all_nodes() if ldd.N(i)['k'] == 'DeclStmt' for d in ldd.N(i)['decls'] if d.get('init') is not None and shapes and shapes[0][0] in set(ldd.walk(d['init']))] if len(shapes) == 2 else []
+            vvar = [d['ref'] for i in ldd.all_nodes() if ldd.N(i)['k'] == 'DeclStmt' for d in ldd.N(i)['decls'] if d.get('init') is not None and shapes and shapes[1][0] in set(ldd.walk(d['init']))] if len(shapes) == 2 else []
+            idx = [i for i in ldd.calls(body) if ldd.N(i)['k'] == 'CXXOperatorCallExpr' and ldd.N(i).get('op') == '[]' and ldd.ref_of(ldd.N(i)['ch'][1]) == q.param_by_index(ldd, 0)]
+            oks = len(kvar) == 1 and len(vvar) == 1 and len(idx) == 1 and ldd.ref_of(ldd.N(idx[0])['ch'][2]) == kvar[0]
+            if oks:
+                ev = [r for r in [d['ref'] for i in ldd.all_nodes() if ldd.N(i)['k'] == 'DeclStmt' for d in ldd.N(i)['decls'] if d.get('init') is not None and idx[0] in set(ldd.walk(d['init']))]]
+                tgt = ev[0] if ev else None
+                fw = [w for w in q.field_writes(ldd, 'entry::exposed') if ldd.contains(body, w)]
+                okfl = len(fw) == 1 and any(model.strip_targs(r).endswith('packed::exposed') for r in ldd.subtree_refs(ldd.N(fw[0])['ch'][1])) and pvn in ldd.subtree_refs(ldd.N(fw[0])['ch'][1]) and (tgt is None or tgt in ldd.subtree_refs(ldd.N(fw[0])['ch'][0]))
+                sv = [i for i in ldd.calls(body) if q.short_of(ldd.bcallee(i) or '') in ('swap', 'assign', 'operator=') and vvar[0] in ldd.subtree_refs(i) and any(model.strip_targs(r).endswith('entry::value') for r in ldd.subtree_refs(i))]
+                oks = okfl and len(sv) == 1 and q.always_after(ldd, idx[0], [fw[0]]) and q.always_after(ldd, idx[0], sv)
+            ctx.check(oks, R10, 'load_data:stored-under-the-key-with-flag-and-value', 'the entry read is not stored as data[key] = {value, exposed flag of the header}', ldd.loc(idx[0]) if idx else ldd.where)
+    ctx.floor(R10, 8)
 
     # ---------------- R6
     D = 'cppcms::sessions::session_dual'
